@@ -19,13 +19,14 @@ from vlib.runner import Check, Violation, main  # noqa: E402
 from vlib.worker import Worker, WorkerDied  # noqa: E402
 
 RW = K.CKF_SERIAL_SESSION | K.CKF_RW_SESSION
-ATTRS = [K.CKA_VALUE, K.CKA_LABEL, K.CKA_ID, K.CKA_PRIVATE]      # CKA_VALUE (never modified) is the identity of an object
+ATTRS = [K.CKA_VALUE, K.CKA_LABEL, K.CKA_ID, K.CKA_PRIVATE, K.CKA_WRAP_WITH_TRUSTED]      # CKA_VALUE (never modified) is the identity of an object
 
 
 class Proc:
     def __init__(self, w, s):
         self.w, self.s = w, s
         self.handles = {}      # label -> handle as last seen by this process
+        self.wk = None         # a session AES key of this process (for C_WrapKey through cached handles)
 
 
 class C15(Check):
@@ -62,6 +63,8 @@ class C15(Check):
             st.tuples(st.just("set"), p, i, st.sampled_from(["CKA_LABEL", "CKA_ID"]), st.integers(0, 99)),
             st.tuples(st.just("destroy"), p, i),
             st.tuples(st.just("read"), p, i),
+            st.tuples(st.just("flag"), p, i),
+            st.tuples(st.just("use"), p, i, st.sampled_from(["wrap", "wrap", "copy"])),
             st.tuples(st.just("check"), p),
             st.tuples(st.just("pair"), st.sampled_from(["create_create", "set_set_diff", "set_set_same", "set_destroy", "create_check", "destroy_check", "set_read"]),
                       i, st.lists(st.integers(0, 1), min_size=0, max_size=40), st.integers(0, 99)),
@@ -111,6 +114,8 @@ class C15(Check):
                     raise V("%s: census in process %d failed: %s" % (why, procs.index(p), K.rvname(rv)))
                 seen = {}
                 for h, a in objs.items():
+                    if p.wk is not None and int(h) == p.wk:
+                        continue          # the process's own session wrapping key (not a token object)
                     lab = a.get(K.CKA_VALUE)
                     if lab in seen:
                         raise V("%s: process %d finds object %s twice (handles %d and %d)" % (why, procs.index(p), bytes.fromhex(lab), seen[lab][0], h))
@@ -140,7 +145,7 @@ class C15(Check):
                 label = b"%s-%d-%d" % (pre, i, n)
                 tpl = T(("CKA_CLASS", "CKO_SECRET_KEY"), ("CKA_KEY_TYPE", "CKK_GENERIC_SECRET"), ("CKA_TOKEN", True), ("CKA_PRIVATE", private),
                         ("CKA_SENSITIVE", False), ("CKA_EXTRACTABLE", True), ("CKA_VALUE", label), ("CKA_LABEL", b"label0"), ("CKA_ID", b"id0"))
-                return label, {K.CKA_VALUE: label.hex(), K.CKA_LABEL: b"label0".hex(), K.CKA_ID: b"id0".hex(), K.CKA_PRIVATE: private}, \
+                return label, {K.CKA_VALUE: label.hex(), K.CKA_LABEL: b"label0".hex(), K.CKA_ID: b"id0".hex(), K.CKA_PRIVATE: private, K.CKA_WRAP_WITH_TRUSTED: False}, \
                     {"fn": "C_CreateObject", "s": p.s, "tpl": tpl}
 
             for i, op in enumerate(prog["ops"]):
@@ -199,18 +204,61 @@ class C15(Check):
                         for t, want in model[label].items():
                             got = r[str(t)]
                             gv = got[1] if got[0] == 0 else None
-                            if t == K.CKA_PRIVATE:
+                            if t in (K.CKA_PRIVATE, K.CKA_WRAP_WITH_TRUSTED):
                                 gv = (gv != "00") if gv is not None else None
                             if gv != want:
                                 raise V("process %d reads %s of %s through a cached handle as %s, committed value is %s" % (
                                     procs.index(p), K.name("CKA", t), label, str(gv)[:40], str(want)[:40]))
+                elif kind == "flag":
+                    # a committed change of a POLICY attribute (one way: may be wrapped under any key -> only under a trusted key; the value stays readable)
+                    p = P(op[1])
+                    label = obj(op[2])
+                    if label is None or model[label][K.CKA_WRAP_WITH_TRUSTED]:
+                        continue
+                    h, cached = handle(p, label)
+                    if h is None:
+                        raise V("process %d cannot find committed object %s" % (procs.index(p), label))
+                    rv = p.w.C_SetAttributeValue(s=p.s, o=h, tpl=T(("CKA_WRAP_WITH_TRUSTED", True)))["rv"]
+                    if rv == 0:
+                        model[label][K.CKA_WRAP_WITH_TRUSTED] = True
+                    else:
+                        raise V("C_SetAttributeValue(CKA_WRAP_WITH_TRUSTED=true) on committed object %s failed: %s" % (label, K.rvname(rv)))
+                elif kind == "use":
+                    # another entry point than C_GetAttributeValue through a CACHED handle: C_WrapKey / C_CopyObject must see the committed state too
+                    p = P(op[1])
+                    cands = sorted(p.handles)
+                    if not cands:
+                        continue
+                    label = cands[op[2] % len(cands)]
+                    h = p.handles[label]
+                    if p.wk is None:
+                        p.wk = p.w.C_CreateObject(s=p.s, tpl=T(("CKA_CLASS", "CKO_SECRET_KEY"), ("CKA_KEY_TYPE", "CKK_AES"), ("CKA_VALUE", b"W" * 16), ("CKA_TOKEN", False),
+                                                               ("CKA_PRIVATE", False), ("CKA_WRAP", True)))["h"]
+                    if op[3] == "wrap":
+                        r = p.w.C_WrapKey(s=p.s, mech={"m": K.CKM_AES_KEY_WRAP_PAD}, wkey=p.wk, key=h, out=512)
+                    else:
+                        r = p.w.C_CopyObject(s=p.s, o=h, tpl=T(("CKA_TOKEN", False)))
+                        if r["rv"] == 0:
+                            p.w.C_DestroyObject(s=p.s, o=r["h"])
+                    ctx.label("cached_handle_uses")
+                    nontrivial[0] = True
+                    if label not in model:
+                        if r["rv"] == 0:
+                            raise V("process %d still %s object %s through its cached handle although another process destroyed it" % (
+                                procs.index(p), "wraps" if op[3] == "wrap" else "copies", label))
+                        p.handles.pop(label)
+                    elif op[3] == "wrap" and r["rv"] == 0 and model[label][K.CKA_WRAP_WITH_TRUSTED]:
+                        raise V("process %d wraps object %s under an ordinary key through its cached handle although another process committed CKA_WRAP_WITH_TRUSTED=true" % (
+                            procs.index(p), label))
+                    elif r["rv"] != 0 and (op[3] == "copy" or not model[label][K.CKA_WRAP_WITH_TRUSTED]):
+                        raise V("process %d: %s of committed object %s through a cached handle failed: %s" % (procs.index(p), op[3], label, K.rvname(r["rv"])))
                 elif kind == "check":
                     observe(P(op[1]), "check")
                     continue
                 elif kind == "pair":
                     self.run_pair(ctx, prog, op, procs, model, handle, create_cmd, V, i, labels, nontrivial, stage)
                 # "the next call of ANOTHER process observes it"
-                if kind in ("create", "set", "destroy", "pair") and not prog.get("lazy"):
+                if kind in ("create", "set", "destroy", "pair", "flag") and not prog.get("lazy"):
                     who = P(op[1] + 1) if kind != "pair" else procs[-1]
                     observe(who, "after %s" % kind)
             for p in procs:
@@ -299,7 +347,7 @@ class C15(Check):
                 if got[0] != 0:
                     raise V("set_read under schedule %s: reading %s of a committed object while another process rewrites it: %s" % (
                         schedule[:20], K.name("CKA", t), K.rvname(got[0])))
-                gv = got[1] if t != K.CKA_PRIVATE else (got[1] != "00")
+                gv = got[1] if t not in (K.CKA_PRIVATE, K.CKA_WRAP_WITH_TRUSTED) else (got[1] != "00")
                 if gv != want and not (t == K.CKA_LABEL and gv == va.hex()):
                     raise V("set_read under schedule %s: %s reads %s, neither the old nor the new committed value" % (schedule[:20], K.name("CKA", t), str(gv)[:40]))
         if what in ("create_check", "destroy_check") and res[1]["rv"] != 0:
@@ -311,6 +359,8 @@ class C15(Check):
             raise V("%s: census after the pair failed: %s" % (what, K.rvname(rv)))
         seen = {}
         for h, a in objs.items():
+            if obs.wk is not None and int(h) == obs.wk:
+                continue
             lab = a.get(K.CKA_VALUE)
             if lab in seen:
                 raise V("%s: object %s exists twice after the concurrent calls" % (what, lab))
